@@ -131,6 +131,10 @@ def plan_cases(tier, seed):
     with -j1 and -j4 (real step processes), results compared."""
     repo = os.environ.get("VERIF_REPO", "/repo")
     root = os.path.join(repo, "tests", "examples")
+    if not os.path.isdir(root):
+        # a scratch copy of the package only (selftest/mutant.py): the plans come from /repo,
+        # the code that builds them from the copy
+        root = os.path.join("/repo", "tests", "examples")
     names = sorted(d for d in os.listdir(root) if os.path.isfile(os.path.join(root, d, "plan.py")))
     rng = random.Random(seed * 977 + 3)
     if tier == "quick":
